@@ -20,6 +20,8 @@ use std::time::{Duration, Instant};
 
 pub const SIGMA_A: [&str; 14] = [" ", "a", "1", "é", "'", "\"", "`", "\\", "$", "(", ")", "|", "&", ">"];
 pub const SIGMA_B: [&str; 14] = ["{", "}", ",", ".", "*", "~", "<", ";", "#", "=", "+", "^", "1", "a"];
+/// the characters of A and B that interact across the two alphabets (`${a`, `"${`, `~{`, `$(`, `{$a,`): expansions x braces x quotes
+pub const SIGMA_C: [&str; 14] = ["$", "{", "}", "a", "1", "`", "\"", "'", "\\", "(", ")", "*", "~", " "];
 
 fn note(acc: &mut Acc, stage: &str, case: &str, r: Result<(), String>) {
     if let Err(p) = r {
@@ -232,9 +234,11 @@ pub fn run(ctx: &Ctx) -> Value {
     for len in 0..=4 {
         plan.push(Level::Pure("A", len));
         plan.push(Level::Pure("B", len));
+        plan.push(Level::Pure("C", len));
         if len <= 3 {
             plan.push(Level::Plan("A", len, all.clone()));
             plan.push(Level::Plan("B", len, all.clone()));
+            plan.push(Level::Plan("C", len, all.clone()));
         }
         if len >= 1 {
             plan.push(Level::Script(len));
@@ -243,6 +247,8 @@ pub fn run(ctx: &Ctx) -> Value {
     if ctx.thorough() {
         plan.push(Level::Plan("A", 4, all.clone()));
         plan.push(Level::Plan("B", 4, all.clone()));
+        plan.push(Level::Plan("C", 4, all.clone()));
+        plan.push(Level::Pure("C", 5));
         plan.push(Level::Pure("A", 5));
         plan.push(Level::Pure("B", 5));
         plan.push(Level::Script(5));
@@ -254,6 +260,7 @@ pub fn run(ctx: &Ctx) -> Value {
         // length 4 under the self-referential environment only (the one that used to hang)
         plan.push(Level::Plan("A", 4, vec![1]));
         plan.push(Level::Plan("B", 4, vec![1]));
+        plan.push(Level::Plan("C", 4, vec![1]));
     }
     let mut total = SweepResult::default();
     let mut levels: Vec<Value> = Vec::new();
@@ -282,11 +289,11 @@ pub fn run(ctx: &Ctx) -> Value {
         }
         let r = match lv {
             Level::Pure(a, len) => {
-                let alpha = if a == "A" { SIGMA_A } else { SIGMA_B };
+                let alpha = if a == "A" { SIGMA_A } else if a == "B" { SIGMA_B } else { SIGMA_C };
                 explore::par_sweep(move || explore::strings_of_len(&alpha, len), pure_stages, &mk(format!("pure{}{}", a, len)))
             }
             Level::Plan(a, len, envs) => {
-                let alpha = if a == "A" { SIGMA_A } else { SIGMA_B };
+                let alpha = if a == "A" { SIGMA_A } else if a == "B" { SIGMA_B } else { SIGMA_C };
                 explore::par_sweep(
                     move || {
                         let envs = envs.clone();
@@ -307,6 +314,6 @@ pub fn run(ctx: &Ctx) -> Value {
     }
     let mut out = total.to_json();
     out["levels"] = json!(levels);
-    out["alphabets"] = json!({"A": SIGMA_A, "B": SIGMA_B, "script_lines": SCRIPT_LINES});
+    out["alphabets"] = json!({"A": SIGMA_A, "B": SIGMA_B, "C": SIGMA_C, "script_lines": SCRIPT_LINES});
     out
 }
